@@ -952,3 +952,19 @@ Proof.
     + rewrite E1, C1. symmetry. apply (wsum_app (length p)); [apply chain_wf|apply (cohort_wf p rest)].
 Qed.
 End ControlVariate.
+
+(* the guard of the HypCluster reduction is needed (witness by evaluation) *)
+Lemma hypcluster_unguarded_refuted :
+  exists co so (cohorts : list (list (client (K := key) (B := list example)))) p os q s q' s' dgs,
+    Forall (fun cl => NoDup (map c_id cl)) cohorts /\
+    iter_rounds (hypcluster ls_grad split_key ls_split_pair ls_copt_init (ls_copt_apply co) (ls_sopt so) (fun _ => O)) [(p, os)] cohorts
+      = Some [(q, s)] /\
+    fedavg_runs ls_grad split_key ls_copt_init (ls_copt_apply co) (ls_sopt so) (p, os) (map (map (rekey ls_split_pair)) cohorts)
+      = Some (q', s', dgs) /\ ~ q =v= q'.
+Proof.
+  exists (mkSgd (1 # 2) 0 false), (mkSgd 1 (1 # 2) false),
+         [[mkClient 1%Z 1%Z [] [[([1; 0], 1)]]]; [mkClient 2%Z 0%Z [] []]], [0; 0], [0; 0].
+  do 5 eexists. split; [|split; [vm_compute; reflexivity|split; [vm_compute; reflexivity|]]].
+  - repeat constructor; cbn; intros []; assumption.
+  - intros H. apply veqb_veq in H. vm_compute in H. discriminate.
+Qed.
